@@ -61,14 +61,23 @@ struct E40 {
 static_assert(sizeof(E8) == 8 && sizeof(E8) <= 2 * sizeof(size_t), "copy-sized");
 static_assert(sizeof(E40) == 40 && sizeof(E40) > 2 * sizeof(size_t), "pointer-sized");
 
+// A STATEFUL comparator (the order lives in an own heap cell; copies are deep; the destructor
+// scribbles over the cell).  The merge front ends take the comparator by value: the harness hands
+// them a separate object and switches it to a garbage order as soon as the call has returned.
 template <typename E>
 struct Cmp {
-    int mode = 0;
+    int* st;
+    explicit Cmp(int m = 0) : st(new int(m)) {}
+    Cmp(const Cmp& o) : st(new int(*o.st)) {}
+    Cmp& operator=(const Cmp& o) { *st = *o.st; return *this; }
+    ~Cmp() { *st = 0x5a5a5a5a; delete st; }
+    void set(int m) { *st = m; }
     bool operator()(const E& a, const E& b) const {
-        switch (mode) {
+        switch (*st) {
+        case 0: return a.k() < b.k();
         case 1: return a.k() > b.k();
         case 2: return (a.k() >> 2) < (b.k() >> 2);
-        default: return a.k() < b.k();
+        default: return a.k() == 12345;
         }
     }
 };
@@ -90,7 +99,7 @@ static void run_merge(const std::vector<std::string>& t) {
     const std::string& entry = t[1];
     const std::string& algo = t[2];
     Cmp<E> cmp;
-    if (t[4] == "lt") cmp.mode = 0; else if (t[4] == "gt") cmp.mode = 1; else if (t[4] == "q4") cmp.mode = 2;
+    if (t[4] == "lt") cmp.set(0); else if (t[4] == "gt") cmp.set(1); else if (t[4] == "q4") cmp.set(2);
     else { vh::answer("bad-op"); return; }
     long long len = std::stoll(t[5]);
     bool stable, sentinels, base;
@@ -147,17 +156,19 @@ static void run_merge(const std::vector<std::string>& t) {
     It target = out.begin();
     It ret;
     tlx::MultiwayMergeAlgorithm a = mw < 0 ? tlx::MWMA_ALGORITHM_DEFAULT : static_cast<tlx::MultiwayMergeAlgorithm>(mw);
+    Cmp<E> callcmp(cmp);      // the caller's object; modified right after the call
     if (base) {
-        if (stable && sentinels) ret = mw < 0 ? tlx::multiway_merge_base<true, true>(seqs.begin(), seqs.end(), target, len, cmp) : tlx::multiway_merge_base<true, true>(seqs.begin(), seqs.end(), target, len, cmp, a);
-        else if (stable) ret = mw < 0 ? tlx::multiway_merge_base<true, false>(seqs.begin(), seqs.end(), target, len, cmp) : tlx::multiway_merge_base<true, false>(seqs.begin(), seqs.end(), target, len, cmp, a);
-        else if (sentinels) ret = mw < 0 ? tlx::multiway_merge_base<false, true>(seqs.begin(), seqs.end(), target, len, cmp) : tlx::multiway_merge_base<false, true>(seqs.begin(), seqs.end(), target, len, cmp, a);
-        else ret = mw < 0 ? tlx::multiway_merge_base<false, false>(seqs.begin(), seqs.end(), target, len, cmp) : tlx::multiway_merge_base<false, false>(seqs.begin(), seqs.end(), target, len, cmp, a);
+        if (stable && sentinels) ret = mw < 0 ? tlx::multiway_merge_base<true, true>(seqs.begin(), seqs.end(), target, len, callcmp) : tlx::multiway_merge_base<true, true>(seqs.begin(), seqs.end(), target, len, callcmp, a);
+        else if (stable) ret = mw < 0 ? tlx::multiway_merge_base<true, false>(seqs.begin(), seqs.end(), target, len, callcmp) : tlx::multiway_merge_base<true, false>(seqs.begin(), seqs.end(), target, len, callcmp, a);
+        else if (sentinels) ret = mw < 0 ? tlx::multiway_merge_base<false, true>(seqs.begin(), seqs.end(), target, len, callcmp) : tlx::multiway_merge_base<false, true>(seqs.begin(), seqs.end(), target, len, callcmp, a);
+        else ret = mw < 0 ? tlx::multiway_merge_base<false, false>(seqs.begin(), seqs.end(), target, len, callcmp) : tlx::multiway_merge_base<false, false>(seqs.begin(), seqs.end(), target, len, callcmp, a);
     }
-    else if (stable && sentinels) ret = mw < 0 ? tlx::stable_multiway_merge_sentinels(seqs.begin(), seqs.end(), target, len, cmp) : tlx::stable_multiway_merge_sentinels(seqs.begin(), seqs.end(), target, len, cmp, a);
-    else if (stable) ret = mw < 0 ? tlx::stable_multiway_merge(seqs.begin(), seqs.end(), target, len, cmp) : tlx::stable_multiway_merge(seqs.begin(), seqs.end(), target, len, cmp, a);
-    else if (sentinels) ret = mw < 0 ? tlx::multiway_merge_sentinels(seqs.begin(), seqs.end(), target, len, cmp) : tlx::multiway_merge_sentinels(seqs.begin(), seqs.end(), target, len, cmp, a);
-    else ret = mw < 0 ? tlx::multiway_merge(seqs.begin(), seqs.end(), target, len, cmp) : tlx::multiway_merge(seqs.begin(), seqs.end(), target, len, cmp, a);
+    else if (stable && sentinels) ret = mw < 0 ? tlx::stable_multiway_merge_sentinels(seqs.begin(), seqs.end(), target, len, callcmp) : tlx::stable_multiway_merge_sentinels(seqs.begin(), seqs.end(), target, len, callcmp, a);
+    else if (stable) ret = mw < 0 ? tlx::stable_multiway_merge(seqs.begin(), seqs.end(), target, len, callcmp) : tlx::stable_multiway_merge(seqs.begin(), seqs.end(), target, len, callcmp, a);
+    else if (sentinels) ret = mw < 0 ? tlx::multiway_merge_sentinels(seqs.begin(), seqs.end(), target, len, callcmp) : tlx::multiway_merge_sentinels(seqs.begin(), seqs.end(), target, len, callcmp, a);
+    else ret = mw < 0 ? tlx::multiway_merge(seqs.begin(), seqs.end(), target, len, callcmp) : tlx::multiway_merge(seqs.begin(), seqs.end(), target, len, callcmp, a);
 
+    callcmp.set(0x5a5a);
     long long r = ret - target;
     std::vector<long long> adv;
     bool sane = true;
